@@ -55,6 +55,23 @@ static std::string step(const Toks& t)
 		std::string got = hex(&h[0], 20);
 		return got == t[3] ? "ok" : "digest " + got;
 	}
+	if (op == "sha1g" && t.size() == 4) {
+		// digest of a long message of pseudo-random content (xorshift64* from the seed, 8 bytes per step, little-endian),
+		// generated here and by the plugin alike: compared with the hashlib digest given on the line
+		unsigned long long x = (unsigned long long)num(t[1]);
+		long n = (long)num(t[2]);
+		if (!x || n < 0 || n > 2147483647L) return "bad-op";
+		byte* p = (byte*)malloc(n ? n : 1);
+		for (long i = 0; i < n; i += 8) {
+			x ^= x >> 12; x ^= x << 25; x ^= x >> 27;
+			unsigned long long v = x * 2685821657736338717ULL;
+			for (int k = 0; k < 8 && i + k < n; k++) p[i + k] = (byte)(v >> (8 * k));
+		}
+		SHA1::Hash h = SHA1::hash(p, (int)n);
+		free(p);
+		std::string got = hex(&h[0], 20);
+		return got == t[3] ? "ok" : "digest " + got;
+	}
 	if (op == "b64ex" && t.size() == 3) {
 		// every string of the given length over the given alphabet through the decoder; FNV-1a digest of all results
 		std::string alpha = unhex(t[1]);
